@@ -1,10 +1,10 @@
-\* C31 leg A quick: <= 3 blocks, sources within 1..3, 2 groups, 2 workers; all inputs, group orders, interleavings
+\* C31 leg A quick: <= 3 blocks (3-block inputs within one group, <= 2 blocks over 2 groups), sources within 1..3, 2 workers; all inputs, group orders, interleavings
 SPECIFICATION Spec
 CONSTANTS MaxBlocks = 3
           NSrc = 3
           NGrp = 2
           Workers = {"w1", "w2"}
-          FullGrpBlocks = 3
+          FullGrpBlocks = 2
           CaseBlocks = 3
 INVARIANTS C31_HiddenOnlyIfCovered C31_KeptCoverEverySource C31_OutcomeIndependentOfSchedule NeverRemovesKept
 PROPERTIES Terminates
